@@ -187,7 +187,13 @@ func checkConstExprConsult(c *core.Ctx) {
 		c.Undecided("R03.2", "acceptance sites", 0, fmt.Sprintf("only %d constant-expression acceptance sites found (expected the const-expression validator and the two import-global verifiers)", len(sites)))
 	}
 	for _, s := range sites {
-		fr := fieldsRead(s.node)
+		// the arm, and the helpers of the package it hands the check to (one level)
+		fr := map[string]bool{}
+		for _, sn := range armScope(wp, s.node) {
+			for k := range fieldsRead(sn) {
+				fr[k] = true
+			}
+		}
 		var miss []string
 		for _, f := range []string{"Mutable", "ValType"} {
 			if !fr[f] {
